@@ -437,9 +437,12 @@ pub struct DeltaSerializer {
 
 const BLOCK_THRESHOLD: u16 = 16_384u16;
 
+/// Smallest budget a [`DeltaSerializer`] works with.
+pub(crate) const MIN_DELTA_MTU: usize = 100;
+
 impl DeltaSerializer {
     pub fn with_mtu(mtu: usize) -> Self {
-        assert!(mtu >= 100);
+        assert!(mtu >= MIN_DELTA_MTU);
         let block_threshold = u16::try_from((BLOCK_THRESHOLD as usize).min(mtu)).unwrap();
         DeltaSerializer {
             mtu,
